@@ -95,6 +95,7 @@ func operandsNotEdges(m *Model) bool {
 // ---- spec results from the Lean driver ----
 
 type specRes struct {
+	Unconverged bool
 	Reject  bool
 	Kinds   string
 	Weights map[string]map[string]int
@@ -104,6 +105,10 @@ type specRes struct {
 func parseSpec(s string) specRes {
 	x := parseSX(s)
 	r := specRes{Weights: map[string]map[string]int{}, Wild: map[string][]string{}}
+	if x.Head() == "unconverged" {
+		r.Unconverged = true
+		return r
+	}
 	if x.Head() == "reject" {
 		r.Reject = true
 		r.Kinds = s
@@ -211,11 +216,20 @@ func evalWCases(c *Ctx, rng *rand.Rand, models []*Model, reps, exhaustiveUpTo, s
 		c.R.Disagreements = append(c.R.Disagreements, Case{Stream: "driver", Kind: "correspondence", Detail: err.Error()})
 		return nil
 	}
+	kept := []*wCase{}
 	for i, wc := range cases {
 		wc.spec = parseSpec(lines[2*i])
 		wc.specE = parseSpec(lines[2*i+1])
+		if wc.spec.Unconverged || wc.specE.Unconverged {
+			// the hypothesis of Props/C04.weights_satisfy_equations (the iteration of the specification
+			// reached a fixed point within its fuel) is not met: the input is not covered
+			c.R.Unmodelled++
+			c.Dist("spec_unconverged")
+			continue
+		}
+		kept = append(kept, wc)
 	}
-	return cases
+	return kept
 }
 
 func weightsEqual(a, b map[string]map[string]int) string {
